@@ -4,7 +4,9 @@ import json
 from gen import pyref
 
 STD_DOMAIN = [("name", "string"), ("version", "string"), ("chainId", "uint256"), ("verifyingContract", "address"), ("salt", "bytes32")]
-NAMES = ["Person", "Mail", "Asset", "Order", "Zeta", "alpha", "_Under", "Éclair", "Ａwide", "Transaction", "Foo", "Bar", "Node", "Tree", "a", "B"]
+NAMES = ["Person", "Mail", "Asset", "Order", "Zeta", "alpha", "_Under", "Éclair", "Ａwide", "Transaction", "Foo", "Bar", "Node", "Tree", "a", "B",
+         # names that extend another name with a character below / above "(" and "," in byte order
+         "Order$Leg", "Order_", "Order0", "OrderA", "Foo$", "Foo$Bar", "a$", "B_", "Person$"]
 ATOMS = (["bool", "address", "string", "bytes"] + ["bytes%d" % n for n in range(1, 33)] + ["uint%d" % n for n in range(8, 257, 8)] +
          ["int%d" % n for n in range(8, 257, 8)])
 
@@ -21,7 +23,7 @@ def rand_types(rng, nstructs=None, primary=None):
             r = rng.random()
             if r >= 0.6:
                 nrefs += 1
-                if nrefs > 2:
+                if nrefs > (2 if i % 3 else 6):
                     r = 0.0
             if r < 0.45:
                 t = rng.choice(ATOMS)
